@@ -33,6 +33,11 @@ theorem C16_concurrent_sendable_is_send (t : Ty) (hc : t.concurrent = true) (hs 
   have : ∀ t ∈ allTys, t.concurrent = true → t.itemSend = true → isSend t = true := by decide
   exact this t (mem_allTys t) hc hs
 
+/-- Non-vacuity for the fifth wrapper: a future borrowed from the async producer of a concurrent buffer over sendable items
+    can be sent (it is what multi-threaded executors need); the same future over a local buffer cannot. -/
+example : isSend ⟨.prod, .future, true, true, false⟩ = true ∧ isSend ⟨.prod, .future, false, true, true⟩ = false ∧
+    isSync ⟨.cons, .future, true, true, true⟩ = false := by decide
+
 /-- Tie to the source: the marker trait that the `Send` impls are bounded on is implemented by the concurrent buffer only,
     and the buffer handle holds a raw (`NonNull`) pointer, which is what makes everything `!Send`/`!Sync` by default. -/
 theorem C16_source_markers_and_handle :
